@@ -197,10 +197,8 @@ func enumStates(u Universe, maxStates int, mutOnly func(Call) bool) [][]Call {
 				continue
 			}
 			y := replay(u, p)
-			func() {
-				defer func() { recover() }()
-				y.Do(c)
-			}()
+			c := c
+			invoke(skeleton(y, c), func() { y.Do(c) })
 			k := canon(y)
 			if !seen[k] && u.Inside(y) && len(paths) < maxStates {
 				seen[k] = true
